@@ -2,18 +2,20 @@ import VibeProof.Props.C15
 /-
 C14 — ROLLBACK TO SAVEPOINT restores the state at the savepoint.
 
-Model: `Model/TableSM.lean` — change log + savepoint stack as coded: only INSERT is recorded
-(`Database::insert_row` / `insert_rows_batch` call `record_change`; the UPDATE, DELETE, TRUNCATE,
-REPLACE-delete and upsert paths never do); undo of an insert removes the FIRST equal row
-(`Table::remove_row`).
+Model: `Model/TableSM.lean` — change log + savepoint stack as coded.  Since fix d69656ff every
+DML path records its changes (INSERT: Insert; UPDATE / upsert: Update(old, new); DELETE,
+TRUNCATE, REPLACE's delete: Delete) and the undo of an Update removes the NEW row and puts the
+old one back; undo of an Insert removes the FIRST equal row (`Table::remove_row`), undo of a
+Delete inserts the row again (at the end).
 
 Stack discipline — proved in full:
   `C14_savepoint_pushes`, `C14_rollback_to_keeps_it_and_drops_later`, `C14_release_changes_no_data`,
   `C14_unknown_savepoint_is_error`, `C14_no_transaction_is_error`.
-Data — `C14_full` is false of the code as it is:
-  `C14_rollback_to_restores_partial` (region between SAVEPOINT n and ROLLBACK TO n made of
-  INSERTs and further SAVEPOINTs) and the counterexamples `C14_delete_counterexample`,
-  `C14_update_counterexample`.
+Data — proved in full: `C14_rollback_to_restores` — whatever INSERT, UPDATE, upsert, DELETE,
+  TRUNCATE, REPLACE statements and further SAVEPOINTs ran after `SAVEPOINT n`,
+  `ROLLBACK TO SAVEPOINT n` succeeds and the table holds (as a multiset) exactly the rows it
+  held at the savepoint.  (Before the fix this held for INSERT-only regions and was refuted for
+  DELETE and UPDATE.)
 -/
 namespace VibeProof.C14
 open VibeProof VibeProof.Idx VibeProof.TSM
@@ -110,10 +112,223 @@ theorem C14_no_transaction_is_error (s : TState) (n : String) (ht : s.txn = none
 
 /-! ### data -/
 
-/-- DML and further savepoints between `SAVEPOINT n` and `ROLLBACK TO SAVEPOINT n` -/
+/-- what a recorded change does to the contents (as a multiset) -/
+def apply1 (rows : List Row) : Change → Option (List Row)
+  | .ins r => some (r :: rows)
+  | .del r => if r ∈ rows then some (rows.erase r) else none
+  | .upd old new => if old ∈ rows then some (new :: rows.erase old) else none
+
+def applyAll (rows : List Row) : List Change → Option (List Row)
+  | [] => some rows
+  | c :: cs => (apply1 rows c).bind (fun r => applyAll r cs)
+
+theorem applyAll_append (a b : List Change) : ∀ rows,
+    applyAll rows (a ++ b) = (applyAll rows a).bind (fun r => applyAll r b) := by
+  induction a with
+  | nil => intro rows; simp [applyAll]
+  | cons c cs ih =>
+    intro rows
+    simp only [List.cons_append, applyAll]
+    cases apply1 rows c with
+    | none => simp
+    | some r => simp [ih]
+
+theorem apply1_perm (c : Change) (rows rows' R : List Row) (hp : rows.Perm rows')
+    (h : apply1 rows c = some R) : ∃ R', apply1 rows' c = some R' ∧ R.Perm R' := by
+  cases c with
+  | ins r =>
+    simp only [apply1, Option.some.injEq] at h ⊢
+    subst h; exact ⟨_, rfl, hp.cons r⟩
+  | del r =>
+    simp only [apply1] at h ⊢
+    by_cases hm : r ∈ rows
+    · simp only [hm, ↓reduceIte, Option.some.injEq] at h
+      subst h
+      simp only [hp.mem_iff.mp hm, ↓reduceIte]
+      exact ⟨_, rfl, hp.erase r⟩
+    · simp [hm] at h
+  | upd old new =>
+    simp only [apply1] at h ⊢
+    by_cases hm : old ∈ rows
+    · simp only [hm, ↓reduceIte, Option.some.injEq] at h
+      subst h
+      simp only [hp.mem_iff.mp hm, ↓reduceIte]
+      exact ⟨_, rfl, (hp.erase old).cons new⟩
+    · simp [hm] at h
+
+theorem applyAll_perm (cs : List Change) : ∀ (rows rows' R : List Row), rows.Perm rows' →
+    applyAll rows cs = some R → ∃ R', applyAll rows' cs = some R' ∧ R.Perm R' := by
+  induction cs with
+  | nil =>
+    intro rows rows' R hp h
+    simp only [applyAll, Option.some.injEq] at h ⊢
+    subst h; exact ⟨_, rfl, hp⟩
+  | cons c cs ih =>
+    intro rows rows' R hp h
+    simp only [applyAll] at h ⊢
+    cases h1 : apply1 rows c with
+    | none => simp [h1] at h
+    | some R1 =>
+      simp only [h1, Option.bind_some] at h
+      obtain ⟨R1', h2, hp1⟩ := apply1_perm c rows rows' R1 hp h1
+      obtain ⟨R', h3, hp2⟩ := ih R1 R1' R hp1 h
+      exact ⟨R', by simp [h2, h3], hp2⟩
+
+/-- `rows` is (up to order) what the changes `L` make of `rows0` -/
+def Tracks (rows0 : List Row) (L : List Change) (rows : List Row) : Prop :=
+  ∃ R, applyAll rows0 L = some R ∧ rows.Perm R
+
+theorem Tracks_extend (rows0 : List Row) (L cs : List Change) (rows rows2 R2 : List Row)
+    (h : Tracks rows0 L rows) (hcs : applyAll rows cs = some R2) (hp : rows2.Perm R2) :
+    Tracks rows0 (L ++ cs) rows2 := by
+  obtain ⟨R, hR, hperm⟩ := h
+  obtain ⟨R2', h2, hp2⟩ := applyAll_perm cs rows R R2 hperm hcs
+  exact ⟨R2', by rw [applyAll_append, hR]; simpa using h2, hp.trans hp2⟩
+
+/-- undoing the changes newest first restores (up to order) the contents they started from -/
+theorem undoAll_restores (L : List Change) : ∀ (hs : List HIdx) (rows base R : List Row),
+    applyAll base L = some R → rows.Perm R →
+    (undoAll hs rows L.reverse).1.Perm base ∧ (undoAll hs rows L.reverse).2.2 = true := by
+  induction L using snoc_induction with
+  | nil =>
+    intro hs rows base R h hp
+    simp only [applyAll, Option.some.injEq] at h
+    subst h
+    simp only [List.reverse_nil, undoAll]
+    exact ⟨hp, trivial⟩
+  | snoc L c ih =>
+    intro hs rows base R h hp
+    rw [applyAll_append] at h
+    cases hR' : applyAll base L with
+    | none => simp [hR'] at h
+    | some R' =>
+      simp only [hR', Option.bind_some, applyAll] at h
+      simp only [List.reverse_append, List.reverse_cons, List.reverse_nil, List.nil_append,
+        List.singleton_append]
+      cases c with
+      | ins r =>
+        simp only [apply1, Option.bind_some, Option.some.injEq] at h
+        subst h
+        have hmem : r ∈ rows := hp.mem_iff.mpr (by simp)
+        have hp2 : (rows.erase r).Perm R' := by simpa using hp.erase r
+        simp only [undoAll, hmem, ↓reduceIte]
+        exact ih _ _ _ _ hR' hp2
+      | del r =>
+        simp only [apply1] at h
+        by_cases hm : r ∈ R'
+        · simp only [hm, ↓reduceIte, Option.bind_some, Option.some.injEq] at h
+          subst h
+          have hp2 : (rows ++ [r]).Perm R' :=
+            ((List.perm_append_singleton r rows).trans (hp.cons r)).trans (List.perm_cons_erase hm).symm
+          simp only [undoAll, putBack]
+          exact ih _ _ _ _ hR' hp2
+        · simp [hm] at h
+      | upd old new =>
+        simp only [apply1] at h
+        by_cases hm : old ∈ R'
+        · simp only [hm, ↓reduceIte, Option.bind_some, Option.some.injEq] at h
+          subst h
+          have hmem : new ∈ rows := hp.mem_iff.mpr (by simp)
+          have hp1 : (rows.erase new).Perm (R'.erase old) := by simpa using hp.erase new
+          have hp2 : (rows.erase new ++ [old]).Perm R' :=
+            ((List.perm_append_singleton old _).trans (hp1.cons old)).trans (List.perm_cons_erase hm).symm
+          simp only [undoAll, hmem, ↓reduceIte, putBack]
+          exact ih _ _ _ _ hR' hp2
+        · simp [hm] at h
+
+/-! what each statement records is what it does -/
+
+theorem applyAll_ins (rs : List Row) : ∀ rows,
+    applyAll rows (rs.map .ins) = some (rs.reverse ++ rows) := by
+  induction rs with
+  | nil => intro rows; simp [applyAll]
+  | cons r rs ih => intro rows; simp [applyAll, apply1, ih]
+
+theorem applyAll_dels (D : List Row) : ∀ (rows K : List Row), rows.Perm (D ++ K) →
+    ∃ R, applyAll rows (D.map .del) = some R ∧ R.Perm K := by
+  induction D with
+  | nil => intro rows K h; exact ⟨rows, by simp [applyAll], by simpa using h⟩
+  | cons d D ih =>
+    intro rows K h
+    have hm : d ∈ rows := h.mem_iff.mpr (by simp)
+    have hp : (rows.erase d).Perm (D ++ K) := by simpa using h.erase d
+    obtain ⟨R, hR, hRK⟩ := ih _ K hp
+    exact ⟨R, by simp [applyAll, apply1, hm, hR], hRK⟩
+
+theorem map_fst_zipIdx (l : List Row) : ∀ n, (l.zipIdx n).map (fun e => e.1) = l := by
+  induction l with
+  | nil => intro n; simp
+  | cons a l ih => intro n; simp [List.zipIdx_cons, ih]
+
+theorem removed_kept_perm (rows : List Row) (ps : List Nat) :
+    rows.Perm (removedAt rows ps ++ removeAt rows ps) := by
+  unfold removedAt removeAt
+  rw [← List.map_append]
+  have h := (List.filter_append_perm (fun e : Row × Nat => ps.contains e.2) rows.zipIdx).map (fun e => e.1)
+  rw [map_fst_zipIdx] at h
+  exact h.symm
+
+theorem set_perm (l : List Row) : ∀ (i : Nat) (old new : Row), l[i]? = some old →
+    (l.set i new).Perm (new :: l.erase old) := by
+  induction l with
+  | nil => intro i old new h; simp at h
+  | cons a l ih =>
+    intro i old new h
+    cases i with
+    | zero =>
+      simp only [List.getElem?_cons_zero, Option.some.injEq] at h
+      subst h
+      simp
+    | succ j =>
+      simp only [List.getElem?_cons_succ] at h
+      have hmem : old ∈ l := List.mem_of_getElem? h
+      have h1 := ih j old new h
+      simp only [List.set_cons_succ]
+      by_cases ha : a = old
+      · subst ha
+        simp only [List.erase_cons_head]
+        exact (h1.cons a).trans ((List.Perm.swap new a _).trans ((List.perm_cons_erase hmem).symm.cons new))
+      · have : (a :: l).erase old = a :: l.erase old := by
+          simp [List.erase_cons, ha]
+        rw [this]
+        exact (h1.cons a).trans (List.Perm.swap new a _)
+
+theorem applyAll_upds (ups : List (Nat × Row × List Nat)) : ∀ (cur rows0 : List Row) (hs : List HIdx),
+    (ups.map (fun e => e.1)).Nodup → (∀ e ∈ ups, cur[e.1]? = rows0[e.1]?) →
+    ∀ rows' hs', updRows cur hs ups = some (rows', hs') →
+      ∃ R, applyAll cur (updChanges rows0 ups) = some R ∧ rows'.Perm R := by
+  induction ups with
+  | nil =>
+    intro cur rows0 hs _ _ rows' hs' he
+    simp only [updRows, Option.some.injEq, Prod.mk.injEq] at he
+    obtain ⟨rfl, rfl⟩ := he
+    exact ⟨cur, by simp [updChanges, applyAll], List.Perm.refl _⟩
+  | cons e rest ih =>
+    obtain ⟨i, new, ch⟩ := e
+    intro cur rows0 hs hnd hsame rows' hs' he
+    cases hold : cur[i]? with
+    | none => simp [updRows, hold] at he
+    | some old =>
+      simp only [updRows, hold] at he
+      have h0 : rows0[i]? = some old := by
+        rw [← hsame (i, new, ch) (by simp)]; exact hold
+      simp only [List.map_cons, List.nodup_cons] at hnd
+      have hsame' : ∀ e ∈ rest, (cur.set i new)[e.1]? = rows0[e.1]? := by
+        intro e hm
+        have hne : i ≠ e.1 := by
+          intro heq; apply hnd.1; rw [heq]; exact List.mem_map.mpr ⟨e, hm, rfl⟩
+        rw [List.getElem?_set_ne hne]
+        exact hsame e (by simp [hm])
+      obtain ⟨R, hR, hp⟩ := ih (cur.set i new) rows0 _ hnd.2 hsame' rows' hs' he
+      have hmem : old ∈ cur := List.mem_of_getElem? hold
+      obtain ⟨R', hR', hp'⟩ := applyAll_perm _ _ _ R (set_perm cur i old new hold) hR
+      exact ⟨R', by simp [updChanges, h0, applyAll, apply1, hmem, hR'], hp.trans hp'⟩
+
+/-- DML and further savepoints between `SAVEPOINT n` and `ROLLBACK TO SAVEPOINT n`
+(UPDATE with the distinct row positions the executor passes) -/
 def RegionOp (n : String) : Op → Prop
   | .insert _ => True
-  | .update _ => True
+  | .update ups => (ups.map (fun e => e.1)).Nodup
   | .upsert _ _ => True
   | .delete _ => True
   | .truncate => True
@@ -121,31 +336,18 @@ def RegionOp (n : String) : Op → Prop
   | .savepoint m => m ≠ n
   | _ => False
 
-/-- the part of the region the change log covers -/
-def InsertOnlyOp (n : String) : Op → Prop
-  | .insert _ => True
-  | .savepoint m => m ≠ n
-  | _ => False
-
 def afterRollbackTo (s : TState) (n : String) (region : List Op) : TState × Option TErr :=
   step (run (step s (.savepoint n)).1 region) (.rollbackTo n)
 
-/-- the property at full strength: whatever DML ran after `SAVEPOINT n`, `ROLLBACK TO n`
-succeeds and the table contents are (as a multiset) those at the savepoint -/
-def C14_full : Prop :=
-  ∀ (s : TState) (t : Txn) (n : String) (region : List Op), s.txn = some t →
-    (∀ op ∈ region, RegionOp n op) →
-    (afterRollbackTo s n region).2 = none ∧ (afterRollbackTo s n region).1.rows.Perm s.rows
-
 theorem insertMany_rows_log (rs : List Row) : ∀ (s : TState) (t : Txn), s.txn = some t →
     (insertMany s rs).rows = s.rows ++ rs ∧
-    ∃ t', (insertMany s rs).txn = some t' ∧ t'.log = t.log ++ rs ∧ t'.saves = t.saves := by
+    ∃ t', (insertMany s rs).txn = some t' ∧ t'.log = t.log ++ rs.map .ins ∧ t'.saves = t.saves := by
   induction rs with
   | nil => intro s t ht; exact ⟨by simp [insertMany], t, ht, by simp, rfl⟩
   | cons r rs ih =>
     intro s t ht
-    have h1 : (insert1 s r).txn = some { t with log := t.log ++ [r] } := by
-      simp [insert1, logIns, ht]
+    have h1 : (insert1 s r).txn = some { t with log := t.log ++ [.ins r] } := by
+      simp [insert1, logIns, logAdd, ht]
     obtain ⟨h2, t', h3, h4, h5⟩ := ih _ _ h1
     refine ⟨?_, t', h3, ?_, h5⟩
     · rw [insertMany, h2]; simp [insert1]
@@ -159,73 +361,103 @@ theorem findSave_append_hit (pre extra : List (String × Nat)) (n : String) (x :
     simp [findSave, this]
   | cons sp pre ih => simp [findSave, ih]
 
-theorem undoAll_perm (L : List Row) : ∀ (hs : List HIdx) (rows base : List Row),
-    rows.Perm (base ++ L) →
-    (undoAll hs rows L.reverse).1.Perm base ∧ (undoAll hs rows L.reverse).2.2 = true := by
-  induction L using snoc_induction with
-  | nil =>
-    intro hs rows base h
-    simp only [List.reverse_nil, undoAll]
-    exact ⟨by simpa using h, trivial⟩
-  | snoc L r ih =>
-    intro hs rows base h
-    have hmem : r ∈ rows := by
-      apply h.mem_iff.mpr; simp
-    have hp : (rows.erase r).Perm (base ++ L) := by
-      have h1 : rows.Perm (r :: (base ++ L)) := by
-        refine h.trans ?_
-        rw [← List.append_assoc]
-        exact List.perm_append_singleton r (base ++ L)
-      have h2 := h1.erase r
-      simpa using h2
-    simp only [List.reverse_append, List.reverse_cons, List.reverse_nil, List.nil_append,
-      List.singleton_append, undoAll, hmem, ↓reduceIte]
-    exact ih _ _ _ hp
-
-/-- invariant of an insert-only region after `SAVEPOINT n` taken in state (rows0, t0) -/
+/-- invariant of the region after `SAVEPOINT n` taken in state (rows0, t0) -/
 def RegionInv (rows0 : List Row) (t0 : Txn) (n : String) (σ : TState) : Prop :=
-  ∃ (t : Txn) (L : List Row) (extra : List (String × Nat)), σ.txn = some t ∧
-    σ.rows = rows0 ++ L ∧ t.log = t0.log ++ L ∧
+  ∃ (t : Txn) (L : List Change) (extra : List (String × Nat)), σ.txn = some t ∧
+    Tracks rows0 L σ.rows ∧ t.log = t0.log ++ L ∧
     t.saves = t0.saves ++ (n, t0.log.length) :: extra ∧ ∀ sp ∈ extra, sp.1 ≠ n
 
+/-- a statement that records `cs` and whose effect on the rows is what `cs` says -/
+theorem region_dml (rows0 : List Row) (t0 : Txn) (n : String) (σ σ' : TState) (t : Txn)
+    (L : List Change) (extra : List (String × Nat)) (cs : List Change) (R2 : List Row)
+    (ht : σ.txn = some t) (htr : Tracks rows0 L σ.rows) (hlog : t.log = t0.log ++ L)
+    (hsaves : t.saves = t0.saves ++ (n, t0.log.length) :: extra) (hex : ∀ sp ∈ extra, sp.1 ≠ n)
+    (htxn : σ'.txn = some { t with log := t.log ++ cs })
+    (hcs : applyAll σ.rows cs = some R2) (hp : σ'.rows.Perm R2) : RegionInv rows0 t0 n σ' :=
+  ⟨{ t with log := t.log ++ cs }, L ++ cs, extra, htxn, Tracks_extend rows0 L cs σ.rows σ'.rows R2 htr hcs hp,
+    by simp [hlog], hsaves, hex⟩
+
 theorem region_step (rows0 : List Row) (t0 : Txn) (n : String) (σ : TState) (op : Op)
-    (hop : InsertOnlyOp n op) (h : RegionInv rows0 t0 n σ) :
+    (hop : RegionOp n op) (h : RegionInv rows0 t0 n σ) :
     RegionInv rows0 t0 n (step σ op).1 := by
-  obtain ⟨t, L, extra, ht, hrows, hlog, hsaves, hex⟩ := h
+  obtain ⟨t, L, extra, ht, htr, hlog, hsaves, hex⟩ := h
   cases op with
   | insert rs =>
     obtain ⟨h1, t', h2, h3, h4⟩ := insertMany_rows_log rs σ t ht
-    refine ⟨t', L ++ rs, extra, h2, ?_, ?_, ?_, hex⟩
-    · simp only [step]; rw [h1, hrows]; simp
+    refine ⟨t', L ++ rs.map .ins, extra, h2, ?_, ?_, ?_, hex⟩
+    · refine Tracks_extend rows0 L _ σ.rows _ _ htr (applyAll_ins rs σ.rows) ?_
+      simp only [step]; rw [h1]
+      exact List.perm_append_comm.trans ((List.reverse_perm rs).symm.append_right σ.rows)
     · rw [h3, hlog]; simp
     · rw [h4, hsaves]
+  | update ups =>
+    simp only [step]
+    cases he : updRows σ.rows σ.hidx ups with
+    | none => exact ⟨t, L, extra, ht, htr, hlog, hsaves, hex⟩
+    | some p =>
+      obtain ⟨rows', hs'⟩ := p
+      obtain ⟨R, hR, hp⟩ := applyAll_upds ups σ.rows σ.rows σ.hidx hop (fun _ _ => rfl) rows' hs' he
+      exact region_dml rows0 t0 n σ _ t L extra _ R ht htr hlog hsaves hex (by simp [logAdd, ht]) hR hp
+  | upsert i new =>
+    simp only [step]
+    cases hold : σ.rows[i]? with
+    | none => exact ⟨t, L, extra, ht, htr, hlog, hsaves, hex⟩
+    | some old =>
+      have hmem : old ∈ σ.rows := List.mem_of_getElem? hold
+      exact region_dml rows0 t0 n σ _ t L extra [.upd old new] _ ht htr hlog hsaves hex
+        (by simp [logAdd, ht]) (by simp [applyAll, apply1, hmem]) (set_perm σ.rows i old new hold)
+  | delete ps =>
+    obtain ⟨R, hR, hRK⟩ := applyAll_dels (removedAt σ.rows ps) σ.rows (removeAt σ.rows ps)
+      (removed_kept_perm σ.rows ps)
+    exact region_dml rows0 t0 n σ _ t L extra _ R ht htr hlog hsaves hex (by simp [step, logAdd, ht]) hR
+      (by simp only [step]; exact hRK.symm)
+  | truncate =>
+    obtain ⟨R, hR, hRK⟩ := applyAll_dels σ.rows σ.rows [] (by simp)
+    exact region_dml rows0 t0 n σ _ t L extra _ R ht htr hlog hsaves hex (by simp [step, logAdd, ht]) hR
+      (by simp only [step]; exact hRK.symm)
+  | replace r =>
+    -- delete of the conflicting rows, then insert
+    have hdel : ∃ R, applyAll σ.rows ((removedAt σ.rows (conflictPos σ.hidx σ.rows r)).map .del) = some R ∧
+        R.Perm (if (conflictPos σ.hidx σ.rows r).isEmpty then σ.rows else removeAt σ.rows (conflictPos σ.hidx σ.rows r)) := by
+      by_cases hps : (conflictPos σ.hidx σ.rows r).isEmpty = true
+      · have : conflictPos σ.hidx σ.rows r = [] := List.isEmpty_iff.mp hps
+        rw [this]
+        refine ⟨σ.rows, ?_, List.Perm.refl _⟩
+        have hnil : removedAt σ.rows [] = [] := by
+          simp [removedAt]
+        simp [hnil, applyAll]
+      · simp only [hps, Bool.false_eq_true, ↓reduceIte]
+        exact applyAll_dels _ σ.rows _ (removed_kept_perm σ.rows _)
+    obtain ⟨R, hR, hRK⟩ := hdel
+    refine region_dml rows0 t0 n σ _ t L extra
+      ((removedAt σ.rows (conflictPos σ.hidx σ.rows r)).map .del ++ [.ins r]) (r :: R) ht htr hlog hsaves hex
+      ?_ ?_ ?_
+    · simp [step, insert1, logIns, logAdd, ht]
+    · rw [applyAll_append, hR]; simp [applyAll, apply1]
+    · simp only [step, insert1]
+      exact (List.perm_append_singleton r _).trans (hRK.symm.cons r)
   | savepoint m =>
     have hm : m ≠ n := hop
     refine ⟨{ t with saves := t.saves ++ [(m, t.log.length)] }, L, extra ++ [(m, t.log.length)], ?_, ?_,
       hlog, ?_, ?_⟩
     · simp [step, ht]
-    · simp [step, ht, hrows]
+    · simpa [step, ht] using htr
     · simp [hsaves]
     · intro sp hsp
       simp only [List.mem_append, List.mem_singleton] at hsp
       rcases hsp with hsp | rfl
       · exact hex sp hsp
       · exact hm
-  | update _ => exact absurd hop (by simp [InsertOnlyOp])
-  | upsert _ _ => exact absurd hop (by simp [InsertOnlyOp])
-  | delete _ => exact absurd hop (by simp [InsertOnlyOp])
-  | truncate => exact absurd hop (by simp [InsertOnlyOp])
-  | replace _ => exact absurd hop (by simp [InsertOnlyOp])
-  | createIndex _ _ _ => exact absurd hop (by simp [InsertOnlyOp])
-  | dropIndex _ => exact absurd hop (by simp [InsertOnlyOp])
-  | begin => exact absurd hop (by simp [InsertOnlyOp])
-  | commit => exact absurd hop (by simp [InsertOnlyOp])
-  | rollback => exact absurd hop (by simp [InsertOnlyOp])
-  | rollbackTo _ => exact absurd hop (by simp [InsertOnlyOp])
-  | release _ => exact absurd hop (by simp [InsertOnlyOp])
+  | createIndex _ _ _ => exact absurd hop (by simp [RegionOp])
+  | dropIndex _ => exact absurd hop (by simp [RegionOp])
+  | begin => exact absurd hop (by simp [RegionOp])
+  | commit => exact absurd hop (by simp [RegionOp])
+  | rollback => exact absurd hop (by simp [RegionOp])
+  | rollbackTo _ => exact absurd hop (by simp [RegionOp])
+  | release _ => exact absurd hop (by simp [RegionOp])
 
 theorem region_run (rows0 : List Row) (t0 : Txn) (n : String) (ops : List Op) :
-    ∀ σ, (∀ op ∈ ops, InsertOnlyOp n op) → RegionInv rows0 t0 n σ →
+    ∀ σ, (∀ op ∈ ops, RegionOp n op) → RegionInv rows0 t0 n σ →
       RegionInv rows0 t0 n (run σ ops) := by
   induction ops with
   | nil => intro σ _ h; exact h
@@ -233,32 +465,34 @@ theorem region_run (rows0 : List Row) (t0 : Txn) (n : String) (ops : List Op) :
     intro σ hops h
     exact ih _ (fun o ho => hops o (by simp [ho])) (region_step rows0 t0 n σ op (hops op (by simp)) h)
 
-/-- for every transaction state and every region made of INSERTs (single- or multi-row) and
-further SAVEPOINTs, `ROLLBACK TO SAVEPOINT n` succeeds and the table holds, as a multiset,
-exactly the rows it held when `SAVEPOINT n` was executed; n stays on the stack -/
-theorem C14_rollback_to_restores_partial (s : TState) (t : Txn) (n : String) (region : List Op)
-    (ht : s.txn = some t) (hreg : ∀ op ∈ region, InsertOnlyOp n op) :
+/-- for every transaction state and every region of INSERT, UPDATE, upsert, DELETE, TRUNCATE,
+REPLACE statements and further SAVEPOINTs after `SAVEPOINT n`: `ROLLBACK TO SAVEPOINT n`
+succeeds and the table holds, as a multiset, exactly the rows it held when `SAVEPOINT n` was
+executed; n stays on the stack and the log is cut back -/
+theorem C14_rollback_to_restores (s : TState) (t : Txn) (n : String) (region : List Op)
+    (ht : s.txn = some t) (hreg : ∀ op ∈ region, RegionOp n op) :
     (afterRollbackTo s n region).2 = none ∧ (afterRollbackTo s n region).1.rows.Perm s.rows ∧
     ∃ t', (afterRollbackTo s n region).1.txn = some t' ∧
       t'.saves = t.saves ++ [(n, t.log.length)] ∧ t'.log = t.log := by
   have h0 : RegionInv s.rows t n (step s (.savepoint n)).1 := by
     refine ⟨{ t with saves := t.saves ++ [(n, t.log.length)] }, [], [], ?_, ?_, ?_, ?_, ?_⟩
     · simp [step, ht]
-    · simp [step, ht]
+    · exact ⟨s.rows, by simp [applyAll], by simp [step, ht]⟩
     · simp
     · simp
     · intro sp hsp; cases hsp
-  obtain ⟨t2, L, extra, ht2, hrows, hlog, hsaves, hex⟩ := region_run s.rows t n region _ hreg h0
+  obtain ⟨t2, L, extra, ht2, htr, hlog, hsaves, hex⟩ := region_run s.rows t n region _ hreg h0
+  obtain ⟨R, hR, hpR⟩ := htr
   have hfind : findSave t2.saves n = some t.saves.length := by
     rw [hsaves]; exact findSave_append_hit _ _ _ _ hex
   have hget : t2.saves[t.saves.length]? = some (n, t.log.length) := by
     rw [hsaves]; simp
   have hdrop : (List.drop t.log.length t2.log).reverse = L.reverse := by
     rw [hlog]; simp
-  have hperm := undoAll_perm L (run (step s (.savepoint n)).1 region).hidx
-    (run (step s (.savepoint n)).1 region).rows s.rows (by rw [hrows])
+  have hperm := undoAll_restores L (run (step s (.savepoint n)).1 region).hidx
+    (run (step s (.savepoint n)).1 region).rows s.rows R hR hpR
   unfold afterRollbackTo
-  generalize run (step s (.savepoint n)).1 region = s2 at ht2 hrows hperm
+  generalize run (step s (.savepoint n)).1 region = s2 at ht2 hperm
   simp only [step, ht2, hfind, hget, hdrop]
   refine ⟨?_, hperm.1, _, rfl, ?_, ?_⟩
   · simp [hperm.2]
@@ -267,35 +501,24 @@ theorem C14_rollback_to_restores_partial (s : TState) (t : Txn) (n : String) (re
     exact List.take_left' (by simp)
   · rw [hlog]; simp
 
-/-- DELETE after the savepoint is not undone (it is never recorded) -/
-theorem C14_delete_counterexample : ¬ C14_full := by
-  intro h
-  have h1 := h (run (init []) [.insert [[.int 1]], .begin])
-    { snapRows := [[.int 1]], snapH := [], snapU := [], saves := [], log := [] } "A" [.delete [0]] rfl
-    (by simp [RegionOp])
-  have h2 := h1.2.length_eq
-  revert h2
+/-- the former counterexamples (DELETE / UPDATE after the savepoint, UPDATE of a row inserted
+after it) are restored now -/
+theorem C14_former_counterexamples_restored :
+    let s := run (init []) [.insert [[.int 1]], .begin]
+    (afterRollbackTo s "A" [.delete [0]]).1.rows = [[.int 1]] ∧
+    (afterRollbackTo s "A" [.insert [[.int 2]], .update [(1, [.int 3], [0])]]).2 = none ∧
+    (afterRollbackTo s "A" [.insert [[.int 2]], .update [(1, [.int 3], [0])], .truncate]).1.rows = [[.int 1]] := by
   decide
 
-/-- UPDATE after the savepoint is not undone either; and when it rewrites a row inserted after the
-savepoint the undo of that insert fails (`RowNotFound`) -/
-theorem C14_update_counterexample : ¬ C14_full := by
-  intro h
-  have h1 := h (run (init []) [.insert [[.int 1]], .begin])
-    { snapRows := [[.int 1]], snapH := [], snapU := [], saves := [], log := [] } "A"
-    [.insert [[.int 2]], .update [(1, [.int 3], [0])]] rfl (by simp [RegionOp])
-  have h2 := h1.1
-  revert h2
-  decide
-
-/-- non-vacuity of the partial theorem: a region with single and multi-row inserts, a nested
-savepoint and a duplicate row -/
+/-- non-vacuity: a region with every kind of statement; the hypotheses hold, the region really
+changes the table, the rollback restores it -/
 example :
-    let s := run (init [([0], false)]) [.insert [[.int 1]], .begin]
-    let region : List Op := [.insert [[.int 2]], .savepoint "B", .insert [[.int 3], [.int 4]]]
-    (∀ op ∈ region, InsertOnlyOp "A" op) ∧
-    (run (step s (.savepoint "A")).1 region).rows.length = 4 ∧
-    (afterRollbackTo s "A" region).1.rows = [[.int 1]] := by
-  refine ⟨by simp [InsertOnlyOp], by decide, by decide⟩
+    let s := run (init [([0], false)]) [.insert [[.int 1], [.int 2]], .begin]
+    let region : List Op := [.insert [[.int 3]], .savepoint "B", .update [(0, [.int 9], [0])], .delete [1],
+      .replace [.int 3], .upsert 0 [.int 8], .truncate, .insert [[.int 5], [.int 6]]]
+    (∀ op ∈ region, RegionOp "A" op) ∧
+    (run (step s (.savepoint "A")).1 region).rows = [[.int 5], [.int 6]] ∧
+    ((afterRollbackTo s "A" region).1.rows).Perm [[.int 1], [.int 2]] := by
+  refine ⟨by simp [RegionOp], by decide, by decide⟩
 
 end VibeProof.C14
